@@ -309,7 +309,7 @@ func c18Inputs(c *core.Ctx, n int) []c18Input {
 		case k < 6:
 			// 1..4 malformed lines planted below a heading
 			lines := strings.Split(text, "\n")
-			bad := []string{"  oops", "  a:1", "  b: abc", "  c: 1,5", "  d: 1.2.3", "\tx: --1"}
+			bad := []string{"  oops", "  a:1", "  b: abc", "  c: 1,5", "  d: 1.2.3", "\tx: --1", "  e: 1e999", "  f: -1e400", "  g: 0x1p2000", "  h: 1" + strings.Repeat("0", 310), "  i: 1_000", "  j: +"}
 			for m := 0; m <= r.Intn(4); m++ {
 				pos := 1 + r.Intn(len(lines))
 				lines = append(lines[:pos], append([]string{bad[r.Intn(len(bad))]}, lines[pos:]...)...)
